@@ -31,6 +31,7 @@ def main():
     seed = int(os.environ.get("VERIF_SEED", "1"))
     mod = importlib.import_module("props." + pid.lower())
     rep = Report(pid, tier, seed)
+    common.TIER = tier
     fails = common.build_go(race=(tier == "thorough" and getattr(mod, "NEEDS_RACE", False)))
     if fails:
         # the tree no longer builds against the public API the harness uses
